@@ -7,12 +7,6 @@ import TrustfallModel.Proofs.InterpSpec3.Cert
 namespace TF.InterpSpec
 open TF TF.Engine TF.Spec
 
-/-- The Vid an event occupies in the `visited_vids` set of `compute_component` (the destination of
-edge/fold number `e` is `e + 1`). -/
-def evVid : Ev → Vid
-  | .vtx w => w
-  | .fold e => e + 1
-
 theorem nodup_of_map_nodup {α β : Type} {f : α → β} {l : List α} (h : (l.map f).Nodup) : l.Nodup := by
   induction l with
   | nil => exact List.nodup_nil
@@ -158,6 +152,65 @@ theorem tagSem_vertex (W : World) (base : List (Name × Tagged)) {c : Ctx} {L : 
       | some q => simp
     have hlook := absL_tag?_fold W (c := c) hn1 hL hmem
     refine ⟨_, tagValue_fcount W vid e root c hany hcnt, ?_, ?_⟩
+    · rw [tag?_append_left hlook]; rfl
+    · intro _; exact tag?_append_left hlook
+
+end TF.InterpSpec
+
+namespace TF.InterpSpec
+open TF TF.Engine TF.Spec
+
+theorem foldCount?_eq_cnt {c : Ctx} {e : Eid} (hk : e ∈ fkeys c) : c.foldCount? e = some (cnt c e) := by
+  unfold cnt Engine.Ctx.foldCount?
+  obtain ⟨p, hp, hp1⟩ := List.mem_map.1 hk
+  cases hf : List.find? (fun x => x.1 == e) c.foldCounts with
+  | none =>
+    rw [List.find?_eq_none] at hf
+    exact absurd (by simpa using hp1) (hf p hp)
+  | some q => simp
+
+theorem Ext.keys_subset {c c' : Ctx} (h : Ext c c') {w : Vid} (hw : w ∈ keys c) : w ∈ keys c' := by
+  obtain ⟨ext, he⟩ := h.verts
+  simp only [keys, he, List.map_append, List.mem_append]
+  exact Or.inl hw
+
+theorem Ext.fkeys_subset {c c' : Ctx} (h : Ext c c') {e : Eid} (he : e ∈ fkeys c) : e ∈ fkeys c' := by
+  obtain ⟨ext, hx⟩ := h.counts
+  simp only [fkeys, hx, List.map_append, List.mem_append]
+  exact Or.inl he
+
+/-- The compiled tag references of the post-filters of a fold whose source vertex `u` is already
+recorded and active, against the assignment extended by the fold's own count tags. -/
+theorem tagSem_post (W : World) (base : List (Name × Tagged)) {c c1 : Ctx} {L : List Ev} {u : Vid}
+    {V : IRVertex} (hV : W.comp.vertex? u = some V) (hi : Inv W c L) (hu : Ev.vtx u ∈ L)
+    (hext : Ext c c1) (hact : c1.active = look c u)
+    (hn : (base.map (·.1) ++ tagNames W L).Nodup) (l2 : List (Name × Tagged))
+    (o : List (Name × Value)) :
+    TagSem W u c1 ⟨(absL W base L c).tags ++ l2, o⟩ (TRefAt W u L) := by
+  intro t r href
+  rcases href with ⟨w, fld, ty, rfl, hmem, hw⟩ | ⟨e, root, rfl, hmem, hL, hany⟩
+  · rcases hw with rfl | ⟨hwL, hne, hsome⟩
+    · have hlook := absL_tag?_vtx W (c := c) hn hu hmem
+      refine ⟨_, tagValue_local W w fld ty c1 hV, ?_, ?_⟩
+      · rw [tag?_append_left hlook]; rfl
+      · intro ha
+        rw [tag?_append_left hlook, hact]
+        obtain ⟨x, hx⟩ := Option.isSome_iff_exists.1 ha
+        rw [hact] at hx
+        simp [tagOf, hx]
+    · obtain ⟨Vw, hVw⟩ := Option.isSome_iff_exists.1 hsome
+      have hk : w ∈ keys c := by rw [hi.vk]; exact mem_vtxs.2 hwL
+      have hlook := absL_tag?_vtx W (c := c) hn hwL hmem
+      have hv1 : c1.vertexAt? w = some (look c w) := by
+        rw [vertexAt?_eq_look (hext.keys_subset hk), look_stable hext hk]
+      refine ⟨_, tagValue_other W u w fld ty c1 hne hVw hv1, ?_, ?_⟩
+      · rw [tag?_append_left hlook]; rfl
+      · intro _; exact tag?_append_left hlook
+  · have hk : e ∈ fkeys c := by rw [hi.fk]; exact mem_flds.2 hL
+    have hcnt : c1.foldCount? e = some (cnt c e) := by
+      rw [foldCount?_eq_cnt (hext.fkeys_subset hk), cnt_stable hext hk]
+    have hlook := absL_tag?_fold W (c := c) hn hL hmem
+    refine ⟨_, tagValue_fcount W u e root c1 hany hcnt, ?_, ?_⟩
     · rw [tag?_append_left hlook]; rfl
     · intro _; exact tag?_append_left hlook
 
